@@ -56,9 +56,9 @@ def read_result(el, shape, named, t):
 
 def res_shape(case):
     sa, sb = tuple(case["sa"]), tuple(case["sb"])
-    if case["form"] == "ew":
+    if case["form"] in ("ew", "ew2"):
         return sb if sa == (0, 0) else sa
-    if case["form"] == "agg":
+    if case["form"] in ("agg", "aggedit"):
         return (0, 0)
     if sa[0] == 0 and sb[0] == 0: return (0, 0)
     if sa[0] > 0 and sb[0] == 0: return (0, sa[0])
@@ -80,6 +80,12 @@ def close(a, b):
 def numpy_result(case, A, B):
     a, b = np.array(A, dtype=float), np.array(B, dtype=float)
     f, op = case["form"], case["op"]
+    if f == "aggedit":
+        a[(0,) * a.ndim] = 9.0
+        f = "agg"
+    if f == "ew2":
+        g = {"+": lambda x, y: x + y, "-": lambda x, y: x - y, "*": lambda x, y: x * y}
+        return (g[op](a, g[case["op2"]](b, a)) if case["pos"] == "R" else g[op](g[case["op2"]](a, b), a)).tolist()
     if f == "ew":
         return {"+": a + b, "-": a - b, "*": a * b, "/": a / b}[op].tolist()
     if f == "dot":
@@ -112,7 +118,7 @@ def run_case(R, case, named, scalar_kind, n_case, mismatch_names=False, result="
     if case["form"] == "agg" and case["op"] == "variance":
         pass
     model = Model(starttime=0.0, stoptime=1.0, dt=1.0, name="c10_%d" % n_case)
-    info = {"form": case["form"], "op": case["op"], "shape_a": list(sa), "shape_b": list(sb), "named": named, "scalar": scalar_kind, "A": A, "B": B,
+    info = {"form": case["form"], "op": case["op"] + ("" if "op2" not in case else " (inner %s, nested on the %s)" % (case["op2"], {"L": "left", "R": "right"}[case["pos"]])), "shape_a": list(sa), "shape_b": list(sb), "named": named, "scalar": scalar_kind, "A": A, "B": B,
             "result_element": result}
     oa, ob, ores = case.get("orders", ["fwd", "fwd", "fwd"])
     if "orders" in case:
@@ -136,7 +142,11 @@ def run_case(R, case, named, scalar_kind, n_case, mismatch_names=False, result="
             a = make_operand(model, "opa", sa, A, scalar_kind, named, el=a)
         else:
             a = make_operand(model, "opa", sa, A, scalar_kind, named, order=oa)
-        if case["form"] == "agg":
+        if case["form"] == "ew2":
+            b = make_operand(model, "opb", sb, B, scalar_kind, named)
+            f = {"+": lambda x, y: x + y, "-": lambda x, y: x - y, "*": lambda x, y: x * y}
+            expr = f[case["op"]](a, f[case["op2"]](b, a)) if case["pos"] == "R" else f[case["op"]](f[case["op2"]](a, b), a)
+        elif case["form"] in ("agg", "aggedit"):
             expr = {"sum": lambda: a.arr_sum(), "prod": lambda: a.arr_prod(), "mean": lambda: a.arr_mean(), "median": lambda: a.arr_median(),
                     "variance": lambda: a.arr_stddev(), "size": lambda: a.arr_size(), "rank": lambda: a.arr_rank(int(B))}[case["op"]]()
         else:
@@ -156,6 +166,15 @@ def run_case(R, case, named, scalar_kind, n_case, mismatch_names=False, result="
             res = model.converter("res")
             res.equation = expr
             accepted = True
+            if case["form"] == "aggedit":
+                # the aggregate exists and has been read; now one entry of the array changes
+                read_result(res, res_shape(case), named, 0.0)
+                first = (names(sa[1], "x")[0] if named else 0) if sa[0] == 0 else None
+                if sa[0] == 0:
+                    a[first].equation = 9.0
+                else:
+                    r0, c0 = (names(sa[0], "x")[0], names(sa[1], "y")[0]) if named else (0, 0)
+                    a[r0][c0].equation = 9.0
             got = read_result(res, res_shape(case), named, 0.0)
     except Exception as e:
         if accepted and not expect_reject:
@@ -174,7 +193,7 @@ def run_case(R, case, named, scalar_kind, n_case, mismatch_names=False, result="
     if expect_reject:
         R.violation("operands with mismatching %s were accepted and evaluated" % ("index names" if mismatch_names else "shapes"), dict(info, observed=got))
         return
-    if case["form"] == "agg" and case["op"] == "variance":
+    if case["form"] in ("agg", "aggedit") and case["op"] == "variance":
         got = got ** 2 if not isinstance(got, list) else got      # arr_stddev is compared through the exact variance
     R.add("results_compared")
     if not close(got, exp):
@@ -205,6 +224,12 @@ def run(tier, replay_file=None):
                 n += 1
                 run_case(R, case, True, "element", n, result=result)
                 R.add("traces_validated_against_impl"); R.add("permuted_declaration_cases")
+            continue
+        if case["form"] in ("ew2", "aggedit"):
+            for named in (False, True):
+                n += 1
+                run_case(R, case, named, "element", n)
+                R.add("traces_validated_against_impl"); R.add("nested_or_edited_cases")
             continue
         if "prev" in case:
             for named in (False, True):
